@@ -204,7 +204,7 @@ def job_operators(E, rep, tier):
                        BS + '.ForwardSDE.dg_ga_jvp_column_sum_v2', BS + '.ForwardSDE.prod_default', BS + '.ForwardSDE.prod_diagonal',
                        'torchsde._core.misc.jvp', 'torchsde._core.misc.vjp', 'torchsde._core.misc.batch_mvp')
     B, d = 2, 2
-    for noise, m in (('diagonal', 2), ('general', 2), ('scalar', 1), ('additive', 2)):
+    for noise, m in (('diagonal', 2), ('general', 3), ('scalar', 1), ('additive', 3)):      # d != m: no dimension coincidence
         for grad in (True, False):
             X.fresh_engine_state(E, eta_limit=3)
             cx = Ctx(E, [])
